@@ -18,7 +18,8 @@ CLAIMS = {
               "dominance accessor for ALL matrices/objectives/pairs: accessor cells (through the unordered-pair "
               "cache and its reverted flag) equal the definition's counts and relations; partition identity; "
               "irreflexive/asymmetric/transitive; dominators_of = transitive closure with fuel adequacy; no "
-              "loops. Tie to /repo: exact differential correspondence of every accessor table (exhaustive "
+              "loops; the per-criterion compare table (three boolean rows and counts, either cache orientation) and the "
+              "dominated set are the definition's. Tie to /repo: exact differential correspondence of every accessor table (exhaustive "
               "small scope + random, random call order) run on each check."),
         design="§5 C07",
         note=NOTE_COMMON + "Model: coq/Model/Dominance.v. Python's recursion limit is not modelled.",
@@ -40,7 +41,9 @@ CLAIMS.update({
         text=("Theorems over the Q model of the closed-form kernels for ALL inputs: exact characterisation of the refusal "
               "clauses (WSM/WPM/FMF/MultiMOORA domains), WSM score/rank formula, ideal/reference point is the per-criterion "
               "optimum and is attained, anti-ideal is the worst, distances non-negative, similarity in [0,1] with =1 iff at "
-              "the ideal and undefined iff both distances are 0. The formulas are the model's definitions; irrational "
+              "the ideal and undefined iff both distances are 0; MultiMOORA: the rank matrix is the three component rankings and "
+              "the score computed by the loop over index pairs equals the order-free documented dominance count (one point per "
+              "pair without a component tie). The formulas are the model's definitions; irrational "
               "closings (sqrt/ln/log10) are evaluated by the harness at 60 digits (partial: no real-valued theorem for them "
               "in this property file). Tie to /repo: scores, ideal/anti-ideal, reference point, rank matrix, win counts "
               "compared with the extracted model in an exact and a float regime; refusal stream."),
@@ -76,8 +79,9 @@ CLAIMS.update({
               "weak relations / distillation: outrank iff (c>=p and d<=q, never diagonal); kernel = nobody outranks; "
               "0<=c<=sum w and c(a,b) + weight where b strictly better = sum w; d>=0 and d=0 iff nowhere worse; weight "
               "comparison total; strong subset of weak under the threshold order; the distillation terminates within the "
-              "fuel for every pair of relations. Partial: the distillation's ranking itself is tied to the code by staged "
-              "correspondence only. Tie to /repo: staged exact comparison (tables from the matrix; relations from reported "
+              "fuel for every pair of relations, yields one rank per alternative with ranks exactly 1..k (direct and "
+              "inverse), and is independent of the order in which the alternatives are listed. The distillation is the "
+              "model's definition; it is tied to the code by staged correspondence and an independent Python distillation. Tie to /repo: staged exact comparison (tables from the matrix; relations from reported "
               "tables; rankings from reported relations) with thresholds on the k/8 grid."),
         design="§5 C08",
         note=NOTE_COMMON + "Model: coq/Model/Electre.v. Known finding C08-wor-args-exchanged (matrix_wor) is reported as KNOWN-FINDING; "
@@ -99,8 +103,9 @@ CLAIMS.update({
               "MaxAbs largest |.| is 1; MinMax is the affine map with min->lo, max->hi (constant criterion -> lo); Cenit "
               "ideal->1, anti-ideal->0 per objective; PushNegatives shifts exactly the vectors with a negative minimum, new "
               "minimum 0; AddValueToZero adds exactly to vectors containing a zero; a matrix-target scaler acts on each "
-              "column separately (col j of output = f(col j)). Partial: VectorScaler / StandarScaler are checked through "
-              "their rational cores closed with sqrt by the harness. Tie to /repo: cell-by-cell comparison with the "
+              "column separately (col j of output = f(col j)); VectorScaler output has unit norm and StandarScaler output mean 0 "
+              "and variance 1 for ANY divisor s with s*s equal to the rational core (the real square root is one). Partial: "
+              "that the code's float sqrt is such a divisor up to rounding is checked through the cores closed at 60 digits. Tie to /repo: cell-by-cell comparison with the "
               "extracted model on non-square matrices, all targets and parameter grids, plus direct normal-form oracle."),
         design="§5 C11",
         note=NOTE_COMMON + "Model: coq/Model/Transform.v.",
@@ -121,8 +126,9 @@ CLAIMS.update({
         text=("Theorems over the rational cores: EqualWeighter = base/m; normalised weights sum to 1 and are non-negative; "
               "sample / population variance, covariance and average ranks are independent of the order of alternatives; "
               "covariance symmetric with the variance on the diagonal; Cauchy-Schwarz cov^2 <= var*var (so every CRITIC "
-              "term 1 - r is >= 0); the reduced functions the driver executes equal the specified cores. Partial: the "
-              "sqrt / ln closings (standard deviation, correlation, entropy) are evaluated by the harness at 60 digits. Tie "
+              "term 1 - r is >= 0); the reduced functions the driver executes equal the specified cores; over the reals, the "
+              "Shannon entropy of a probability column is at most ln n (Gibbs), so every entropy diversity lies in [0,1]. "
+              "Partial: the sqrt / ln closings of the actual scores are evaluated by the harness at 60 digits. Tie "
               "to /repo: weights vs closing of the model cores and vs an independent Decimal re-computation; permuted "
               "presentations compared by criterion label."),
         design="§5 C13",
@@ -144,21 +150,26 @@ CLAIMS.update({
              "result.e_ / extra_ and private attributes are outside the property's list.",
         technique="Coq proof over an ownership abstraction + differential history testing with bitwise snapshots"),
     "C05": dict(
-        text=("PARTIAL. Theorems: every row-wise score follows its alternative under reordering (named pairs are a permutation); "
-              "ideal / anti-ideal / reference point do not depend on row order; weighted and signed-weighted sums do not "
-              "depend on criteria order (values, objectives, weights permuted together); equal scores (==) give equal dense "
-              "rankings and positive affine changes keep every ranking; multiplying weights by c>0 keeps WSM / RatioMOORA "
-              "rankings, multiplies ReferencePointMOORA scores by c, leaves TOPSIS closeness unchanged. Labels never enter a "
-              "kernel (by typing). TOPSIS distances under criteria permutation, WPM/FMF, MultiMOORA, ELECTRE and pipelines "
-              "are covered by the correspondence only: two presentations (rows, criteria, labels, weight multiplier) "
-              "compared by alternative name, exact regime exactly, float regime beyond the margin."),
+        text=("PARTIAL (pipelines only by correspondence). Theorems - order of alternatives: every row-wise score and its "
+              "WHOLE ranking follow the alternatives (rank_values commutes with reindexing), ideal / anti-ideal / reference "
+              "point, the ReferencePointMOORA ranking, TOPSIS distances, similarity and ranking, MultiMOORA's dominance count, "
+              "every ELECTRE table, the outranking / strong / weak / weight-comparison relations, the kernel, the ELECTRE2 "
+              "distillations and final ranking; order of criteria: weighted and signed-weighted sums, TOPSIS distances (all "
+              "metrics), the reference-point score, ELECTRE concordance / discordance / scale / weight comparison (specified "
+              "and as called); weight scale c>0: WSM, RatioMOORA, ReferencePointMOORA, TOPSIS closeness (rational and "
+              "euclidean), WPM, FMF (reals). Labels never enter a kernel (by typing). Tie to /repo: two presentations "
+              "(rows, criteria, labels, weight multiplier 1e-12..1e12) compared by alternative name, exact regime exactly, "
+              "float regime beyond a margin that scales with the multiplier."),
         design="§5 C05",
-        note=NOTE_COMMON + "Model: coq/Model/Agg.v; Theory/Invariance.v.",
+        note=NOTE_COMMON + "Model: coq/Model/Agg.v, Model/Electre.v; Theory/Invariance.v, RankPerm*.v, ElectreInv.v, CritPerm.v, "
+             "MultiMoora.v; real-number closings depend on the standard library's real axioms and classic.",
         technique="Coq proof (permutation / scaling invariance of the rational kernels) + two-presentation differential check"),
     "C09": dict(
         text=("Theorems: weak duality and SOUNDNESS of the executable certificate checker for max c.x, Ax<=b, x>=0 (an accepted "
-              "primal/dual pair proves feasibility and optimality) over Q; stage rows sum to one (or are all zero); second-"
-              "method score formula; values are credited by index. PARTIAL: optimality of what CBC returns is certified PER "
+              "primal/dual pair proves feasibility and optimality) over Q; the LP built for a stage (minimise rows negated, own "
+              "row removed) is exactly the documented program, so a certified stage meets every documented bound and is optimal "
+              "in the criterion's own sense; stage rows sum to one (or are all zero); first-method cell formula; the second "
+              "method's dominance table is the pointwise sum over stages and its scores sum to zero; values are credited by index. PARTIAL: optimality of what CBC returns is certified PER "
               "CASE - an untrusted exact simplex proposes (x*, y*), the extracted proved checker accepts it, and the "
               "implementation's stage (credited positionally) must be feasible and attain that certified optimum; the stage "
               "LP construction (senses, default and user b) is the model's and is compared through the same evaluation."),
@@ -200,8 +211,10 @@ CLAIMS.update({
         text=("Theorems over the model of diff / equals / aequals / != for decision matrices, results and comparators: arrays of "
               "different length compare as different (never an error) and a result of another length names 'values'; an object "
               "equals its copy; exact equality is symmetric and implies tolerant equality for any rtol, atol >= 0; != is not ==; "
-              "unrelated types are different; for same-shape matrices a member is named exactly when it differs beyond "
-              "tolerance (one-member corollaries for weights, matrix, values); a shape change names every member. Tie to "
+              "unrelated types are different; diff names a member EXACTLY when that member differs beyond tolerance, for every "
+              "member of matrices (dtypes included) and of results, hence exactly one changed member is exactly what diff names; "
+              "no member is named twice; a result equals its copy, exact implies tolerant for results, a ranking never equals a "
+              "kernel; a shape change names every member. Tie to "
               "/repo: pairs (identical, copy, one member below / at / above the exact dyadic tolerance boundary, lengths, "
               "types), all operators in both directions and the testing.assert_* helpers."),
         design="§5 C17",
@@ -282,7 +295,7 @@ def main():
                                "(ocaml/skcmodel) and run on the same generated inputs as the real library (harness/)"),
         }],
         "checks": checks,
-        "notes": ("fix: commits in /repo repair six genuine defects (see known_findings.json 'fixed'); "
+        "notes": ("fix: commits in /repo repair ten genuine defects (see known_findings.json 'fixed'); "
                   "remaining genuine defects are listed as known findings."),
         "not_applicable": na,
     }
